@@ -92,6 +92,22 @@ let handle kind a =
              | e -> fmt_res e)
         | _ -> failwith "region") regions in
       Some ("Q=" ^ (if ans = [] then "_" else String.concat ";" ans))
+  | "zq" when String.length a.(5) > 0 && a.(5).[0] = '!' -> None
+  | "zq" ->
+      (* cram::fs::index then Reader::query on the written file, records converted by as_bufz
+         (a placed record that covers no reference base is hit at its POS) *)
+      let f = single_file (parse_file a.(5) (parse_recs a.(3))) in
+      let nrefs = n_of_int (List.length (split_on ',' a.(1))) in
+      let regions = if a.(6) = "_" then [] else split_on ';' a.(6) in
+      let ans = List.map (fun t ->
+        match split_on ':' t with
+        | [r; lo; hi] ->
+            (match index_then_query (n_of_dec a.(4)) nrefs f (n_of_dec r) (opt lo) (opt hi) with
+             | Ok [] -> "_"
+             | Ok l -> String.concat "," (List.map (fun x -> dec_of_n x.rname) l)
+             | e -> fmt_res e)
+        | _ -> failwith "region") regions in
+      Some ("Q=" ^ (if ans = [] then "_" else String.concat ";" ans))
   | "midx" ->
       let f = parse_mfile a.(6) (parse_recs a.(3)) in
       (match index_real (n_of_dec a.(4)) f with
